@@ -92,7 +92,11 @@ AnnotateRel(st, pre, post0, replace) ==
        ELSE IF ~replace /\ removed # <<>> THEN "C08.line-lost"
        ELSE IF removed # <<>> /\ ( \/ \E i \in 1..Len(removed) : PreKind(pre, removed[i]) \notin OwnCommentOf(st)
                                    \/ ~\E i \in 1..Len(removed) : PreKind(pre, removed[i]) \in Tagged
-                                   \/ \E i \in 1..(Len(removed) - 1) : IdxOf(solid, removed[i + 1]) # IdxOf(solid, removed[i]) + 1 )
+                                   \/ \E i \in 1..(Len(removed) - 1) : IdxOf(solid, removed[i + 1]) # IdxOf(solid, removed[i]) + 1
+                                   \* one comment block: consecutive lines of the file - an empty line ends a block of
+                                   \* single-line comments, so comment lines beyond it are not part of the header
+                                   \/ \E i \in 1..(Len(removed) - 1) :
+                                         IdxOf(preIds, removed[i + 1]) # IdxOf(preIds, removed[i]) + 1 )
             THEN "C08.line-lost"                          \* removed lines are not one tagged comment block of the style
        ELSE IF \E i \in 1..Len(post) : post[i].id > 0 /\ post[i].tws /\ post[i].id # aboveId /\ PreKind(pre, post[i].id) \notin Blankish
             THEN "C08.trailing-whitespace-changed-away-from-header"
